@@ -15,6 +15,7 @@ cp $wt/_seed/notes.md $dst/notes.md 2>/dev/null
 demodir=pkg/yqlib
 grep -q "^package cmd" $dst/demo_test.go && demodir=cmd
 scratch=/tmp/wt/verify_$name
+if [ -n "${CONFIRM_ONLY:-}" ] || [ ! -f /tmp/wt/confirm_$name.env ]; then
 git -C /repo worktree remove --force $scratch 2>/dev/null
 git -C /repo worktree add -q --detach $scratch HEAD || exit 2
 cd $scratch
@@ -28,7 +29,14 @@ git apply -R $dst/patch.diff
 if go test -vet=off -count=1 -run "TestSeeded" ./$demodir > /tmp/wt/demo_without_$name.log 2>&1; then res_demo_without=pass; else res_demo_without=fail; fi
 cd /verif
 git -C /repo worktree remove --force $scratch
+echo "res_apply=$res_apply res_build=$res_build res_suite=$res_suite res_demo_with=$res_demo_with res_demo_without=$res_demo_without" > /tmp/wt/confirm_$name.env
+else
+  . /tmp/wt/confirm_$name.env
+fi
 echo "apply=$res_apply build=$res_build suite=$res_suite demo_with_change=$res_demo_with demo_without_change=$res_demo_without"
+if [ -n "${CONFIRM_ONLY:-}" ]; then exit 0; fi
+# the evidence files are records of runs on the unchanged tree: keep them out of the seeded runs
+evsave=$(mktemp -d /tmp/wt/evsave_XXXX); cp -a /verif/evidence/. $evsave/
 # run the checks against the change in /repo
 detected=""
 if [ "$res_apply" = ok ] && [ "$res_suite" = pass ] && [ "$res_demo_with" = fail ] && [ "$res_demo_without" = pass ]; then
@@ -48,6 +56,7 @@ if [ "$res_apply" = ok ] && [ "$res_suite" = pass ] && [ "$res_demo_with" = fail
   # restore evidence written during the seeded run
   if [ -z "${FAST:-}" ]; then for p in $prop $others; do ./bin/yqv check $p --tier quick >/dev/null 2>&1; done; fi
 fi
+cp -a $evsave/. /verif/evidence/; rm -rf $evsave
 python3 - <<PY
 import json
 json.dump({
